@@ -77,6 +77,14 @@ def trace {σ κ ο : Type} (step : σ → κ → σ × ο) : σ → List κ →
   | _, [] => []
   | s, c :: cs => let r := step s c; r :: trace step r.1 cs
 
+partial def parseEv (j : Json) : Except String Ev := do
+  let c ← j.getObjValAs? Nat "cls"
+  match j.getObjVal? "inner" with
+  | .ok i => do pure (.wrap c (← parseEv i))
+  | .error _ => do
+    let t ← j.getObjValAs? (Array Nat) "takes"
+    pure (.leaf c t.toList)
+
 def answer (states outs : List Json) : Json :=
   Json.mkObj [("states", Json.arr states.toArray), ("outs", Json.arr outs.toArray)]
 
@@ -137,6 +145,17 @@ def handle (op : String) (j : Json) : Option (Except String Json) :=
           | none => throw s!"bad rational {s}"))
       let tr := trace (scoreValStep cfg) cfg.explicit calls
       pure (answer (tr.map (fun r => storeJson r.1)) (tr.map (fun r => unitJson r.2)))
+    | "dispatch" => do
+      -- every call asks about keyword 0 (prev_gains) and 1 (max_seats) of the evaluator handed to the asking wrapper
+      let cs ← j.getObjValAs? (Array Json) "calls"
+      let evs ← cs.toList.mapM parseEv
+      let qs := evs.flatMap (fun e => [(e, 0), (e, 1)])
+      let tr := trace dispatchStep [] qs
+      let bs := tr.map (fun r => r.2)
+      let rec pairs : List Bool → List Json
+        | a :: b :: rest => Json.arr #[toJson a, toJson b] :: pairs rest
+        | _ => []
+      pure (answer [] (pairs bs))
     | "rng" => do
       -- a generator whose state is "seeded with s, k draws ago" (or unknown); a draw reports (s, k, request) when the
       -- state is known and nothing otherwise: the outputs show which draws are functions of (seed, position, request)
